@@ -142,8 +142,9 @@ def run_layout(tree, frontend, prefix):
                 continue
             for depth in (0, 1):
                 r = w.request("PROPFIND", path_of(tree, n["id"]), [("Depth", str(depth)), ("Content-Type", "text/xml")],
-                              gamma.PROPFIND_ALL)
+                              gamma.PROPFIND_ALL.replace(b"<D:resourcetype/>", b"<D:resourcetype/><D:add-member/>"))
                 got, slash = [], True
+                selfbad = set()
                 if r.status == 207:
                     rs, _ = alpha.parse_multistatus(r.body)
                     for x in rs:
@@ -151,10 +152,19 @@ def run_layout(tree, frontend, prefix):
                         is_coll = rt is not None and any(ch.tag == DAV + "collection" for ch in rt)
                         if is_coll and not (x.href or "").endswith("/"):
                             slash = False
-                        got.append(identify(w, x.href, is_coll))
-                bad = []
+                        ident = identify(w, x.href, is_coll)
+                        got.append(ident)
+                        # a property whose value refers to the described resource itself (add-member:
+                        # where to POST new members, RFC 5995) must address that resource, also
+                        # when the resource is described as a member of a Depth 1 listing
+                        am = x.prop_ok(DAV + "add-member")
+                        if is_coll and am is not None:
+                            for h in am.iter(DAV + "href"):
+                                if identify(w, urllib.parse.urljoin(x.href or "", h.text or ""), True) != ident:
+                                    selfbad.add("add-member")
+                bad = sorted(selfbad)
                 if depth == 0:
-                    bad = sorted({"%s" % p for (p, h, v) in property_hrefs(w, path_of(tree, n["id"])) if v != "ok"})
+                    bad = sorted(selfbad | {"%s" % p for (p, h, v) in property_hrefs(w, path_of(tree, n["id"])) if v != "ok"})
                 recs.append({"tree": live, "at": n["id"], "depth": depth, "got": got, "slash": slash, "badprops": bad,
                              "status": r.status, "frontend": frontend, "prefix": prefix.strip("/") or "root"})
         # the principal and the home sets: hrefs in their property values
